@@ -41,7 +41,8 @@ def create_snippet(key: str, value: str):
     m = re_property.match(value)
     if m:
         keywords = collections.OrderedDict()
-        parsed = [parse_value(v) for v in m.group(2).split('|')] if m.group(2) else []
+        # NB: an empty alternative (`foo:a|`, `foo:a||b`) has no value to parse
+        parsed = [parse_value(v) for v in m.group(2).split('|') if v.strip()] if m.group(2) else []
 
         for item in parsed:
             for css_val in item:
